@@ -219,7 +219,7 @@ Theorem C14_removed_check_by_tags_refuted : exists ix0 progs sched a x,
 Proof.
   exists [{| t_tag := 0; t_readers := 0; t_excl := false; t_live := true |};
           {| t_tag := 1; t_readers := 0; t_excl := false; t_live := true |}].
-  exists [[PVisit false false [0; 1] None]; [PTrunc [0; 1] [0; 1] [] false None]; [PWrite 1 true]].
+  exists [[PVisit false false [0; 1] None]; [PTrunc [0; 1] [0; 1] [] false None [] []]; [PWrite 1 true]].
   exists ([(0,0);(0,0);(0,0); (1,1);(1,1);(1,1);(1,1);(1,1); (0,1);(0,1); (1,0);(1,0); (2,0);(2,0)] ++ repeat (1,0) 11 ++ repeat (2,0) 5).
   eexists. exists 1. split.
   { split; [reflexivity|]. repeat constructor; cbn; intuition discriminate. }
@@ -309,20 +309,20 @@ Proof. split; [reflexivity|]. repeat constructor; cbn; intuition discriminate. Q
 
 (* a reachable state with an exclusive partition and a spinning writer (hypotheses of C14_invisible) *)
 Example ex_exclusive_reached :
-  let s := reach ix2 [[PTrunc [0; 1] [0; 1] [] false None]; [PWrite 0 true]] [(0,0);(0,0);(0,0);(0,0);(0,0);(1,0);(1,0)] in
+  let s := reach ix2 [[PTrunc [0; 1] [0; 1] [] false None [] []]; [PWrite 0 true]] [(0,0);(0,0);(0,0);(0,0);(0,0);(1,0);(1,0)] in
   (exists td, get (s_ix s) 0 = Some td /\ t_excl td = true /\ t_readers td = 1%Z) /\
   snd (mstep_f s 1 0) = Spun /\ snd (mstep_f s 0 0) = Moved.
 Proof. vm_compute. split; [eexists; split; [reflexivity|split; reflexivity]|split; reflexivity]. Qed.
 
 (* a Delete step that really removes a partition (hypotheses of C14_no_delete_in_use) *)
 Example ex_delete_reached :
-  let s := reach ix2 [[PTrunc [0; 1] [0; 1] [] false None]; [PWrite 0 true]] [(0,0);(0,0);(0,0);(0,0);(0,0);(0,0)] in
+  let s := reach ix2 [[PTrunc [0; 1] [0; 1] [] false None [] []]; [PWrite 0 true]] [(0,0);(0,0);(0,0);(0,0);(0,0);(0,0)] in
   (exists td, get (s_ix s) 0 = Some td) /\ get (s_ix (mstep s (0, 0))) 0 = None.
 Proof. vm_compute. split; [eexists; reflexivity|reflexivity]. Qed.
 
 (* a quiescent state after deletion and re-creation: hypotheses of C14_balanced_partial *)
 Example ex_quiescent :
-  let s := reach ix2 [[PTrunc [0; 1] [0; 1] [] false None]; [PWrite 0 true]] (repeat (0,0) 20 ++ repeat (1,0) 6) in
+  let s := reach ix2 [[PTrunc [0; 1] [0; 1] [] false None [] []]; [PWrite 0 true]] (repeat (0,0) 20 ++ repeat (1,0) 6) in
   all_finished s = true /\ length (s_ix s) = 3 /\ (exists td, get (s_ix s) 2 = Some td /\ t_tag td = 0 /\ t_readers td = 0%Z).
 Proof. vm_compute. split; [reflexivity|split; [reflexivity|eexists; split; [reflexivity|split; reflexivity]]]. Qed.
 
@@ -330,7 +330,7 @@ Proof. vm_compute. split; [reflexivity|split; [reflexivity|eexists; split; [refl
    (h_wait); the lock holder deletes it, a writer re-creates tag line 1 as partition 2, the holder
    calls UnlockExclusively (h_recreated): the visit's next iteration moves on; and the rest of the
    schedule lets everybody finish with every count 0 *)
-Definition progs_rc : list (list proc) := [[PVisit false false [0; 1] None]; [PTrunc [0; 1] [0; 1] [] false None]; [PWrite 1 true]].
+Definition progs_rc : list (list proc) := [[PVisit false false [0; 1] None]; [PTrunc [0; 1] [0; 1] [] false None [] []]; [PWrite 1 true]].
 Definition h_wait : schedule := [(0,0);(0,0);(0,0); (1,1);(1,1);(1,1);(1,1);(1,1); (0,1);(0,1)].
 Definition h_recreated : schedule := h_wait ++ [(1,0);(1,0); (2,0);(2,0); (1,0)].
 Example ex_recreate_under_waiting_visit :
